@@ -131,8 +131,11 @@ CATALOGUE = [
      "            self.time_variables['electric current'].append(\n                self.electric_current.value\n            )"),
     # ---- C18
     ('c18_snapshot_time_in_minutes', 'C18', P,
-     "                        target_time.to('sec').value\n                    ).take(0)\n\n            if isinstance(element, MotorBase):",
-     "                        target_time.to('min').value\n                    ).take(0)\n\n            if isinstance(element, MotorBase):"),
+     "            max(target_time.to('sec').value, min(self.time).to('sec').value),",
+     "            max(target_time.to('min').value, min(self.time).to('sec').value),"),
+    ('c18_snapshot_target_not_kept_on_axis', 'C18', P,
+     "        target_seconds = min(\n            max(target_time.to('sec').value, min(self.time).to('sec').value),\n            max(self.time).to('sec').value\n        )",
+     "        target_seconds = target_time.to('sec').value"),
     ('c18_snapshot_nearest', 'C18', P,
      "                        y=[\n                            value.to(unit).value\n                            for value in element.time_variables[variable]\n                        ]\n                    )\n                    data.loc[element.name, f'{variable} ({unit})'] = \\",
      "                        y=[\n                            value.to(unit).value\n                            for value in element.time_variables[variable]\n                        ], kind='nearest'\n                    )\n                    data.loc[element.name, f'{variable} ({unit})'] = \\"),
@@ -328,12 +331,12 @@ CATALOGUE = [
      "        old_speed = self.__powertrain.elements[-1].angular_speed\n        self.__powertrain.elements[-1].angular_speed += \\\n            self.__powertrain.elements[-1].angular_acceleration * \\\n            time_discretization\n        self.__powertrain.elements[-1].angular_position += \\\n            (old_speed*3 - self.__powertrain.elements[-1].angular_speed*2)*time_discretization"),
     # ---- C19
     ('c19_surface_no_positivity_check', 'C19', 'gearpy/units/units.py',
-     "@L2095:        if value <= 0:", "        if value < 0:"),
+     "@L2105:        if value <= 0:", "        if value < 0:"),
     ('c19_inertia_div_bypasses_constructor', 'C19', 'gearpy/units/units.py',
      "            return InertiaMoment(value=self.__value/other, unit=self.__unit)",
      "            result = InertiaMoment(value=1, unit=self.__unit)\n            result._InertiaMoment__value = self.__value/other\n            return result"),
     ('c19_length_inplace_conversion_to_zero', 'C19', 'gearpy/units/units.py',
-     "@L1891:        if value <= 0:", "        if value <= 0 and unit != 'dm':"),
+     "@L1898:        if value <= 0:", "        if value <= 0 and unit != 'dm':"),
     ('c19_motor_no_load_speed_unchecked', 'C19', M,
      "        if no_load_speed.value <= 0:", "        if no_load_speed.value < 0:"),
     ('c19_teeth_minimum_off_by_one', 'C19', 'gearpy/mechanical_objects/mechanical_object_base.py',
